@@ -88,7 +88,7 @@ func GenericRegister[T any](key string) error {
 }
 
 func Marshal(v interface{}) ([]byte, error) {
-	is, err := internalMarshal(v)
+	is, err := internalMarshal(v, newCycleGuard())
 	if err != nil {
 		return nil, err
 	}
@@ -150,14 +150,40 @@ type internalStruct struct {
 	ArrayLen uint32 `json:",omitempty"`
 }
 
-func internalMarshal(v any) (*internalStruct, error) {
-	return internalMarshalAs(v, nil)
+// cycleGuard remembers the pointers, maps and slices that are being encoded further up: meeting one of
+// them again means that the value contains itself and has no finite encoding.
+type cycleGuard struct {
+	active map[cycleKey]struct{}
+}
+
+type cycleKey struct {
+	ptr uintptr
+	len int
+	typ reflect.Type
+}
+
+func newCycleGuard() *cycleGuard { return &cycleGuard{active: make(map[cycleKey]struct{})} }
+
+func (g *cycleGuard) enter(rv reflect.Value) (leave func(), err error) {
+	k := cycleKey{ptr: rv.Pointer(), typ: rv.Type()}
+	if rv.Kind() == reflect.Slice {
+		k.len = rv.Len()
+	}
+	if _, ok := g.active[k]; ok {
+		return nil, fmt.Errorf("cannot marshal a value of type %v that contains itself", rv.Type())
+	}
+	g.active[k] = struct{}{}
+	return func() { delete(g.active, k) }, nil
+}
+
+func internalMarshal(v any, guard *cycleGuard) (*internalStruct, error) {
+	return internalMarshalAs(v, nil, guard)
 }
 
 // internalMarshalAs: slot is the type of the struct field v is stored in, nil for any other position.
 // The name of a named map, slice or array type that is not registered cannot be recorded; the value
 // only gets its type back where the decoder assigns it to a struct field of exactly that type.
-func internalMarshalAs(v any, slot reflect.Type) (*internalStruct, error) {
+func internalMarshalAs(v any, slot reflect.Type, guard *cycleGuard) (*internalStruct, error) {
 	if v == nil {
 		return nil, nil // 这里表示没有值，空指针不等于没有值
 	}
@@ -185,8 +211,20 @@ func internalMarshalAs(v any, slot reflect.Type) (*internalStruct, error) {
 			ret.JSONValue = json.RawMessage("null")
 			return ret, nil
 		}
+		leave, err := guard.enter(rv)
+		if err != nil {
+			return nil, err
+		}
+		defer leave()
 		rv = rv.Elem()
 		rt = rt.Elem()
+	}
+	if (rt.Kind() == reflect.Map || rt.Kind() == reflect.Slice) && !rv.IsNil() && rv.Len() > 0 {
+		leave, err := guard.enter(rv)
+		if err != nil {
+			return nil, err
+		}
+		defer leave()
 	}
 
 	switch rt.Kind() {
@@ -207,7 +245,7 @@ func internalMarshalAs(v any, slot reflect.Type) (*internalStruct, error) {
 				k := field.Name
 				v := rv.Field(i) // 使用Field(i)而不是FieldByName，更高效
 
-				internalValue, err := internalMarshalAs(v.Interface(), field.Type)
+				internalValue, err := internalMarshalAs(v.Interface(), field.Type, guard)
 				if err != nil {
 					return nil, err
 				}
@@ -259,7 +297,7 @@ func internalMarshalAs(v any, slot reflect.Type) (*internalStruct, error) {
 			k := iter.Key()
 			v := iter.Value()
 
-			internalValue, err := internalMarshal(v.Interface())
+			internalValue, err := internalMarshal(v.Interface(), guard)
 			if err != nil {
 				return nil, err
 			}
@@ -267,7 +305,7 @@ func internalMarshalAs(v any, slot reflect.Type) (*internalStruct, error) {
 			var keyStr string
 			if ret.MapKeyInternal {
 				// plain JSON would drop the dynamic type of the key (int(1), int64(1), 1.0 -> "1")
-				internalKey, err := internalMarshal(k.Interface())
+				internalKey, err := internalMarshal(k.Interface(), guard)
 				if err != nil {
 					return nil, err
 				}
@@ -320,7 +358,7 @@ func internalMarshalAs(v any, slot reflect.Type) (*internalStruct, error) {
 		ret.SliceValues = make([]*internalStruct, length)
 
 		for i := 0; i < length; i++ {
-			internalValue, err := internalMarshal(rv.Index(i).Interface())
+			internalValue, err := internalMarshal(rv.Index(i).Interface(), guard)
 			if err != nil {
 				return nil, err
 			}
@@ -338,7 +376,7 @@ func internalMarshalAs(v any, slot reflect.Type) (*internalStruct, error) {
 		}
 		ret.Type = key
 		ret.IsInterface = true
-		internalValue, err := internalMarshal(rv.Interface())
+		internalValue, err := internalMarshal(rv.Interface(), guard)
 		if err != nil {
 			return nil, err
 		}
